@@ -12,7 +12,7 @@ CHECKS = {
  "C07": ("SIM-SYS", "seeded search over programs x terminal events x schedules: Backend::stop()/start() cycles judged in-process at the moment stop() returns (file read back through a fresh descriptor), exit(n) and each of SIGSEGV/SIGABRT/SIGFPE/SIGILL/SIGINT/SIGTERM (raised and really faulted) placed after 0-8 statements of a victim thread with the backend busy, stalled or idle; the child really exits or dies and the parent judges wait status and file contents; sampling, not proof", SIMSYS_NOTE + "; alarm() is recorded, never armed; plain flavour only; after exit() began other user threads finish their current call and park", TECH),
  "C08": ("SIM-SYS", "seeded search over schedules, dropping queue configurations, bursts sized against the capacity (incl. never-fitting sizes), backend stalls, control requests while the queue is full and threads that exit after dropping; oracle relates log-call return values x recording sink x parsed notifier drop counts per thread; control-request liveness judged in the fair phase and control-request effect observed (backtrace init / fill / flush on a private logger must replay exactly min(capacity, stored); blocking logger removal after a burst must return); sampling, not proof", SIMSYS_NOTE, TECH),
  "C09": ("SIM-Q+SIM-SYS", "two levels: (SIM-Q) the real queue classes driven to a quiescent state (consumer drained and idle exactly as the backend does) followed by a request <= capacity, where 'still refused' is an exact verdict, under the weak-memory scheduler; (SIM-SYS) end-to-end histories followed by a statement of any encoded size up to the capacity, liveness judged in the fair phase; sampling, not proof", SIMSYS_NOTE, TECH),
- "C10": ("SIM-SYS", "seeded search over fault plans attached to statements (sink write/flush throws, fwrite ENOSPC on a real FileSink, run-time format mismatch, user formatter throwing std / non-std types, LOG_BACKTRACE without init) x schedules; neighbours-intact exactly-once oracle per sink, file content oracle, notifier count, backend liveness in the fair phase; sampling, not proof", SIMSYS_NOTE, TECH),
+ "C10": ("SIM-SYS", "seeded search over fault plans attached to statements (sink write/flush throws, fwrite ENOSPC on a real FileSink, run-time format mismatch, user formatter throwing std / non-std types, LOG_BACKTRACE without init) x schedules; neighbours-intact exactly-once oracle per sink, file content oracle, notifier count, backend liveness in the fair phase; real sinks included: FileSink (with and without FileEventNotifier callbacks) under fwrite failures, JsonFileSink whose before_write callback rejects chosen statements (every line must be one JSON object, nothing of a failed statement may be glued to the next); statements with placeholders and no arguments; sampling, not proof", SIMSYS_NOTE, TECH),
  "C11": ("SIM-SYS", "seeded search over the typed call-site pool restricted to the property's listed types x schedules (whether a record fits depends on backend draining): interposed malloc-family / mmap calls counted per simulated thread between entry to and return from each real LOG_INFO call (0 required unless first call of the thread or the queue capacity changed); user formatters record the simulated thread they run on (deferred: backend, direct: caller); queue growth is excused only when it can have been necessary (a statement of known size filling a drained queue to 94-100 % must not grow it); sampling, not proof", SIMSYS_NOTE + "; plain flavour only (ASan owns malloc)", TECH),
  "C16": ("SIM-SYS", "seeded search over level / threshold / filter configurations x schedules: statements at every static level and dynamic levels through the real LOG_* macros (argument side-effect counter) and log_statement, logger levels changing concurrently, sink thresholds / filters changing at quiescent barriers, override patterns, transit buffers of capacity 1-4 so slots are reused by statements of different kinds; per-sink acceptance model + line/level/named-argument attribution; sampling, not proof", SIMSYS_NOTE, TECH),
  "C17": ("SIM-SYS", "seeded search over create / lookup / remove (asynchronous and blocking) / re-create histories with sinks shared in random patterns, removal while statements are still queued, backend stalls around the removal, scoped CsvWriter cycles over a small pool of file names, x schedules; exactly-once delivery, registry model (lookup idempotent, blocking removal complete on return, new sinks after re-creation), sink destruction iff unreferenced, blocking-removal liveness in the fair phase; ASan flavour in the thorough tier for premature frees; sampling, not proof", SIMSYS_NOTE + "; API contract respected by construction (barriers before removal, no same-name re-creation after asynchronous removal)", TECH),
